@@ -163,6 +163,10 @@ def to_frac(M, r):
 def image_dists(M, T, R, tau, x1, x2):
     """squared distances between x2 and R x1 + tau + t for every t of the box"""
     v = [R[k][0] * x1[0] + R[k][1] * x1[1] + R[k][2] * x1[2] + tau[k] - x2[k] for k in range(3)]
+    if max(abs(c) for c in v) > BOX - 0.5:
+        # every image outside the box then has a fractional component >= 1.5, i.e. is farther than 1.5 spacings, so a
+        # minimum below half a spacing found inside the box is the global one; beyond that the pair is out of the domain
+        raise RuntimeError('C13 harness: coordinates too far from the origin cell for the translation box')
     cx, cy, cz = to_cart(M, v)
     return [(cx + tx) ** 2 + (cy + ty) ** 2 + (cz + tz) ** 2 for tx, ty, tz in T]
 
@@ -172,12 +176,9 @@ def box_cart(M):
     return [to_cart(M, (h, k, l)) for h in r for k in r for l in r]
 
 
-def min_excluding_self(d2s, strict=True):
+def min_excluding_self(d2s):
     """(smallest squared distance that is not the atom itself, is there an image in the excluded (TINY, NEAR_ZERO) range)"""
     m = min(d2s)
-    k = d2s.index(m)
-    if strict and BOX in (abs(k // (2 * BOX + 1) ** 2 - BOX), abs(k // (2 * BOX + 1) % (2 * BOX + 1) - BOX), abs(k % (2 * BOX + 1) - BOX)):
-        raise RuntimeError('C13 harness: the nearest image lies on the boundary of the translation box; coordinates too far from the origin cell')
     flag = False
     if m <= NEAR_ZERO ** 2:
         rest = [d for d in d2s if d > TINY ** 2]
@@ -346,7 +347,7 @@ def op_in_group(op, group):
 def lib_op_min(orc, op, x1, x2):
     R = tuple(tuple(op[3 * i + k] for i in range(3)) for k in range(3))
     # the translation part modulo 1 (a lattice translation does not change the minimum over all t)
-    m, _ = min_excluding_self(image_dists(orc['M'], orc['T'], R, [t % 1 for t in op[9:12]], x1, x2), strict=False)
+    m, _ = min_excluding_self(image_dists(orc['M'], orc['T'], R, [t % 1 for t in op[9:12]], x1, x2))
     return None if m is None else math.sqrt(m)
 
 
